@@ -27,6 +27,8 @@ def _tla_event(e):
         d.update(E=e['E'], ea=e['ea'])
     elif e['ev'] == 'mk_slice':
         d.update(idx=e['idx'], sid=e['sid'])
+    elif e['ev'] == 'rule_var':
+        d.update(static=e['static'], slopes=e['slopes'])
     else:
         d.update(sid=e['sid'], idx=e['idx'], comps=e['comps'], mask=e['mask'])
     return tla(d)
@@ -104,6 +106,7 @@ def run(rep, tier, props):
             groups.setdefault(key, []).append((src, t))
         total, accepted, rejected, nev = 0, 0, 0, 0
         corrupt_total, corrupt_caught = 0, 0
+        rv_events, rv_bad = 0, 0
         for key, lst in sorted(groups.items(), key=lambda kv: -len(kv[1]))[:(12 if tier == 'quick' else 60)]:
             traces = [t for _, t in lst]
             acc, reach, ideal = validate_group(rep, sc, key, traces, lst[0][0])
@@ -119,8 +122,7 @@ def run(rep, tier, props):
                     rep.note('trace not explained by the transcription (drift, not an alarm): %s event %d %s' % (src, pos, json.dumps(ev)[:200]))
             for tid, pos, what in ideal:
                 src, t = lst[tid - 1]
-                sig = 'C13:trace:ideal-violated:' + ('partition' if 'partition |-> FALSE' in what else 'mask' if 'mask |-> FALSE' in what else
-                                                     'illegal-accepted' if 'illegal |-> FALSE' in what else 'legal-rejected')
+                sig = 'C13:trace:ideal-violated:' + what.strip('" ').split()[0]
                 if 'C13' in props:
                     rep.violation(sig, dict(prop='C13', what='ideal invariant violated on a trace recorded from the real code', source=src, event_index=pos,
                                             events=t['events'][:pos], verdict=what))
@@ -142,11 +144,34 @@ def run(rep, tier, props):
                 acc2, _, _ = validate_group(rep, sc, key, cor, 'corrupted')
                 corrupt_total += len(cor)
                 corrupt_caught += len(cor) - len(acc2)
+            # ... and the logged column map: give two scenarios of different events the same columns; ColMapOK must flag it
+            cor = []
+            for tid, (src, t) in enumerate(lst, 1):
+                if tid in acc and len(cor) < 4:
+                    c = json.loads(json.dumps(t))
+                    for e in c['events']:
+                        if e['ev'] == 'rule_var' and e['out'] == 'ok':
+                            hit = [(v, a, b) for v, st_ in enumerate(e['static']) for a in range(len(st_)) for b in range(len(st_)) if st_[a] != st_[b]]
+                            if hit:
+                                v, a, b = hit[0]
+                                e['static'][v][a] = list(e['static'][v][b])
+                                cor.append(c)
+                            break
+            if cor:
+                _, _, ideal2 = validate_group(rep, sc, key, cor, 'corrupted-colmap')
+                flagged = set(tid for tid, _, what in ideal2 if 'colmap' in what)
+                corrupt_total += len(cor)
+                corrupt_caught += len(flagged)
+            rv_events += sum(1 for t in traces for e in t['events'] if e['ev'] == 'rule_var' and e['out'] == 'ok')
+            rv_bad += sum(1 for t in traces for e in t['events'] if e['ev'] == 'rule_var' and e['out'] != 'ok')
     rep.traces_validated += total
     for k in range(total):
         rep.count(key=('PT', k))
     rep.extra['partition_trace'] = dict(traces=total, events=nev, accepted=accepted, not_explained=rejected, groups=len(groups),
-                                        corrupted_traces=corrupt_total, corrupted_rejected=corrupt_caught)
+                                        corrupted_traces=corrupt_total, corrupted_rejected=corrupt_caught,
+                                        column_maps_judged=rv_events)
+    if rv_bad:
+        raise tlc.MachineryError('PartitionTrace: %d rule_var events could not be projected' % rv_bad)
     if total and accepted < total // 2:
         raise tlc.MachineryError('PartitionTrace: only %d of %d traces accepted' % (accepted, total))
     if corrupt_total and corrupt_caught < corrupt_total:
